@@ -707,6 +707,20 @@ def check_pivot(case):
         if not _multiset_eq(got, want):
             out.viol('unpivot-not-original', '%s then unpivot(%r, %r, %r) minus None-z rows: expected the rows %s (any order), got %s'
                      % (label, xlist, ycol, zcol, show(want, 500), show(got, 500)), op='unpivot', **sig)
+            continue
+        # ---- the optional spelling unpivot(x, {y: [labels]}, z) with the labels named in ANOTHER order than the pivot table stores them
+        ylabels = [k for k in P.keys() if k not in xcols]
+        if len(ylabels) >= 2:
+            try:
+                U2 = P.unpivot(xlist, {ycol: ylabels[::-1]}, zcol)
+                out.call()
+                ku2, ru2 = _rows(U2)
+                got2 = [r for r in ru2 if r.get(zcol) is not None]
+                if not _multiset_eq(got2, want):
+                    out.viol('unpivot-not-original', '%s then unpivot(%r, {%r: %r}, %r) (labels named in reverse) minus None-z rows: expected the rows %s (any order), got %s'
+                             % (label, xlist, ycol, ylabels[::-1], zcol, show(want, 500), show(got2, 500)), op='unpivot', labels='dict-reversed', **sig)
+            except Exception as e:
+                out.viol('unpivot-raised', '%s then unpivot(%r, {%r: %r}, %r) raised %s: %s' % (label, xlist, ycol, ylabels[::-1], zcol, type(e).__name__, e), op='unpivot', labels='dict-reversed', **sig)
     return out
 
 
